@@ -411,7 +411,7 @@ def rule_pair_sync_flag(ctx):
                 if m in ('compare_exchange', 'compare_exchange_weak'):
                     new = e[2][2] if len(e[2]) > 2 else None
                     # did this path take the Ok branch?
-                    res = ('call', e[1], e[2])
+                    res = e[6] if len(e) > 6 else ('call', e[1], e[2])
                     ok = None
                     for c, v in p.conds:
                         if c == ('discr', res):
@@ -503,7 +503,7 @@ def rule_auth_nonblocking(ctx):
             sends = [e for e in p.events if e[0] == 'call' and e[1] == 'crossbeam_channel::Sender::try_send']
             if not sends:
                 continue
-            res = ('call', sends[0][1], sends[0][2])
+            res = sends[0][6] if len(sends[0]) > 6 else ('call', sends[0][1], sends[0][2])
             full = None
             for c, v in p.conds:
                 if isinstance(c, tuple) and c[0] == 'discr' and len(c) > 1 and c[1] == ('payload', res, 'Err', 0):
